@@ -138,6 +138,13 @@ def run(ctx, uname, u):
         res["status"] = "undecided"
         res["undecided_reason"] = "obligation count %d below recorded minimum %d" % (res["obligations"], u.get("min_obligations", 1))
         return res
+    res["obl_list"] = [{"id": "%s#fn%d" % (uname, k), "props": None, "ok": True} for k in range(verified)]
+    by_item = {}
+    for f in failures:
+        by_item.setdefault(f["item"], []).append(f)
+    for item, fs in by_item.items():
+        props = None if any(f["props"] is None for f in fs) else sorted(set(p for f in fs for p in f["props"]))
+        res["obl_list"].append({"id": "%s:%s" % (uname, item), "props": props, "ok": False})
     # dedupe failures by obligation
     seen = {}
     for f in failures:
